@@ -119,6 +119,27 @@ impl TokenLog for BloomTokenLog {
     }
 }
 
+/// Read-only probe for the verification hooks (`verif_hooks/bloom.rs`).
+#[cfg(quinn_rs_quinn_verif)]
+impl BloomTokenLog {
+    /// `(period_1_start in µs since the epoch, [filter_1, filter_2] as (is_bloom, set length))`
+    pub(crate) fn verif_probe(&self) -> (u128, [(bool, usize); 2]) {
+        let state = self.0.lock().unwrap();
+        let f = |x: &Filter| match x {
+            Filter::Set(h) => (false, h.len()),
+            Filter::Bloom(_) => (true, 0),
+        };
+        (
+            state
+                .period_1_start
+                .duration_since(UNIX_EPOCH)
+                .unwrap()
+                .as_micros(),
+            [f(&state.filter_1), f(&state.filter_2)],
+        )
+    }
+}
+
 /// Default to 20 MiB max memory consumption and expected one million hits
 ///
 /// With the default validation token lifetime of 2 weeks, this corresponds to one token usage per
